@@ -4,6 +4,7 @@ from .util import call, spell, agn_name, LETTERS
 
 ID = 'C10'
 LEAN_MODULE = 'KernProofs.C10'
+EXTRA_MODULES = ['KernProofs.C10Doc']
 THEOREMS = ['KM.C10.bottom_table', 'KM.C10.bottom_G2', 'KM.C10.letterToIndex_table', 'KM.C10.gkernLetters_table',
             'KM.C10.gkernOfPosition_steps', 'KM.C10.C10_position', 'KM.C10.C10_G2_identity', 'KM.C10.C10_translation',
             'KM.C10.C10_bottom_is_e', 'KM.C10.C10_all_clefs', 'KM.C10.C10_marks_ignored',
